@@ -133,6 +133,14 @@ pub fn sm2_selftest() -> Result<(), String> {
             return Err("sm2 ladder vs affine".into());
         }
     }
+    // cubic root search: the abscissa of [j]G is among the roots for its ordinate, and every root is on the curve
+    for j in [1u32, 2, 3, 7] {
+        let (x, y) = sm2::g_mul(&BigUint::from(j)).unwrap();
+        let xs = sm2::xs_for_y(&y);
+        if !xs.contains(&x) || xs.is_empty() || xs.len() > 3 {
+            return Err("sm2 cubic root search".into());
+        }
+    }
     // GM/T 0003.5 Annex A
     let d = hexbig("3945208F7B2144B13F36E38AC6D39F95889393692860B51A42FB81EF4DF7C5B8");
     let k = hexbig("59276E27D506861A16680F3AD9C02DCCEF3CC1FA3CDBE4CE6D54B80DEAC1BC21");
